@@ -8,6 +8,7 @@ import (
 	"time"
 
 	"verif/harness/internal/fabioproc"
+	"verif/harness/internal/fakeconsul"
 	"verif/harness/internal/rawhttp"
 )
 
@@ -16,7 +17,7 @@ func init() { register("c06-wire", "C06", c06Wire) }
 // c06Wire: the real (race-built) binary under concurrent clients: unique redirect requests, and a weighted
 // route whose three upstreams must receive their exact share of a whole number of round-robin cycles.
 func c06Wire(c *ctx) {
-	c.R.Rule = "the real race-built binary under 32 concurrent raw clients: requests to a weighted route (fixed weights 0.2/0.3/0.5, three upstreams) numbering a whole multiple of the ring length, interleaved with unique $path/$host redirect requests and requests to glob hosts; each upstream must have received its share within cycles+2 requests (the binary's table is replaced by registry ticks meanwhile, which restarts the cursor), every redirect must carry its own request's path, fabio's log must show no race report. evaluations = requests; non-trivial = request sent while >=2 clients were active; distinct by request id (first 20000 counted)"
+	c.R.Rule = "the real race-built binary under 32 concurrent raw clients: requests to a weighted route (fixed weights 0.2/0.3/0.5, three upstreams) numbering a whole multiple of the ring length, interleaved with unique $path/$host redirect requests and requests to glob hosts; each upstream must have received exactly its share although the catalog changes every 20 ms meanwhile (an unrelated service comes and goes, fabio installs a new table each time), every redirect must carry its own request's path, fabio's log must show no race report. evaluations = requests; non-trivial = request sent while >=2 clients were active; distinct by request id (first 20000 counted)"
 	ups := make([]*rawhttp.Upstream, 3)
 	for i := range ups {
 		u, err := rawhttp.NewUpstream("127.0.0.1:0")
@@ -55,6 +56,30 @@ func c06Wire(c *ctx) {
 	}
 	cycles := c.scale(c.pick(1, 10))
 	total := int64(cycles) * 10000
+	// meanwhile the catalog changes: an unrelated service comes and goes, every change makes fabio build and install a new
+	// table (the weighted route is the same in all of them)
+	stopChurn := make(chan struct{})
+	var cwg sync.WaitGroup
+	cwg.Add(1)
+	go func() {
+		defer cwg.Done()
+		for n := 0; ; n++ {
+			select {
+			case <-stopChurn:
+				return
+			case <-time.After(20 * time.Millisecond):
+			}
+			rg.agent.Update(func(nodes map[string]*fakeconsul.Node, ins map[string]*fakeconsul.Instance) {
+				nodes["n1"] = &fakeconsul.Node{Name: "n1", Address: "127.0.0.1"}
+				if n%2 == 0 {
+					ins["n1/churn"] = &fakeconsul.Instance{Node: "n1", ID: "churn", Name: "churn", Address: "127.0.0.1", Port: 9, Tags: []string{fmt.Sprintf("urlprefix-churn%d.test/", n)}, Checks: []fakeconsul.Check{{CheckID: "c", Status: "passing"}}}
+				} else {
+					delete(ins, "n1/churn")
+				}
+			})
+			c.R.Count("catalog_changes_during_the_run", 1)
+		}
+	}()
 	var next, active, nt atomic.Int64
 	var wg sync.WaitGroup
 	var bad atomic.Value
@@ -104,6 +129,8 @@ func c06Wire(c *ctx) {
 		}(g)
 	}
 	wg.Wait()
+	close(stopChurn)
+	cwg.Wait()
 	if s, _ := bad.Load().(string); s != "" {
 		c.R.Violate("c06w:request-failed", s, nil)
 		return
@@ -129,8 +156,8 @@ func c06Wire(c *ctx) {
 	for k := range got {
 		c.R.SetCounter(fmt.Sprintf("upstream%d_requests", k), got[k])
 	}
-	// the ring has 10000 slots give or take one per target (floor of 10000*weight): allow that per cycle plus the partial cycle
-	tol := int64(cycles + 2)
+	// whole cycles of a ring of exactly 10000 slots, the cursor carried from table to table: the share is exact
+	tol := int64(0)
 	for k := range got {
 		if d := got[k] - want[k]; d > tol || d < -tol {
 			c.R.Violate("c06w:rr-share-not-exact", fmt.Sprintf("after %d requests (%d full cycles of the ring) the upstreams saw %v, the shares are %v (tolerance %d)", total, cycles, got, want, tol), nil)
